@@ -67,3 +67,9 @@ package search
 //@   requires p != nil
 //@   modifies *d, p.avail, p.avail[*]
 //@   ensures base(p.avail) == old(base(p.avail)) || fresh(p.avail)
+
+// Min: the number of clauses a disjunction requires (0 for every other searcher); no effect
+//@ iface Searcher.Min(s)
+//@   mode int
+//@   pure
+//@   requires s != nil
